@@ -43,6 +43,9 @@ type Spec struct {
 	Focus       string `json:"focus,omitempty"` // comma separated substrings of sites that are always hot
 	DelayClass  string `json:"delay,omitempty"` // "" none | "tiny" (<=1ms) | "mid" (<=100ms) | "big" (<=7s)
 	Faults      string `json:"faults,omitempty"`
+	// Wake-up law: permille of runtime wake-ups after which the woken goroutine
+	// queues behind the runnable ones instead of running next.
+	Wake int `json:"wake,omitempty"`
 }
 
 func (s *Spec) P(key, def string) string {
